@@ -36,11 +36,16 @@ def obligations(tier):
             if tier == 'thorough' and n <= 2:
                 kmax = 4
             for k in range(1, kmax + 1):
-                firsts = [None] if k <= 2 else [0, 1, 2, 3, 4, 5]
+                if k <= 2:
+                    firsts = [None]
+                elif k == 3:
+                    firsts = [[a] for a in range(6)]
+                else:
+                    firsts = [[a, b] for a in range(6) for b in range(6)]
                 for first in firsts:
-                    obs.append(Ob('events:n%d:t%d:k%d:first%s' % (n, tmask, k, first), 'events',
+                    obs.append(Ob('events:n%d:t%d:k%d:first%s' % (n, tmask, k, ''.join(map(str, first)) if first else None), 'events',
                                   {'n': n, 'tmask': tmask, 'k': k, 'first': first}, timeout=900, path_timeout=60,
-                                  twin=(first in (None, 0)), functions=FUNCS[:5] + FUNCS[6:],
+                                  twin=(first in (None, [0], [0, 0])), functions=FUNCS[:5] + FUNCS[6:],
                                   bounds='event kinds, reply serials (u32), clock steps symbolic'))
     for bi in range(len(BODIES)):
         obs.append(Ob('cvt:body%d' % bi, 'cvt', {'body': bi}, timeout=120, path_timeout=30, twin=True, functions=FUNCS[5:6],
@@ -151,7 +156,8 @@ def build(family, p):
         for kd in kinds:
             assume(0 <= kd < 6)
         if p.get('first') is not None:
-            assume(kinds[0] == p['first'])
+            for i, f in enumerate(p['first']):
+                assume(kinds[i] == f)
         for rs in rss:
             assume(0 <= rs < 2 ** 32)
         with notrace():
@@ -243,5 +249,12 @@ def build(family, p):
     wit.append(tuple(([1, BASE, 4, 0, 0, BASE, 1, BASE + 1])[:2 * k]))   # error reply, then the deadline passes
     wit.append(tuple(([0, BASE + n - 1, 4, 0, 5, 0, 1, BASE])[:2 * k]))   # return for the last call, deadline, loss
     if p.get('first') is not None:
-        wit = [w for w in wit if w[0] == p['first']]
+        pre = list(p['first'])
+        fixed = []
+        for w in wit:
+            w = list(w)
+            for i, f in enumerate(pre):
+                w[2 * i] = f
+            fixed.append(tuple(w))
+        wit = fixed
     return Spec(h, params, witnesses=wit)
